@@ -1,0 +1,36 @@
+//go:build verif
+
+package nat
+
+import "github.com/cilium/ebpf"
+
+// VerifNATMaps are the map handles Start() would take from the loaded nat44 collection.
+type VerifNATMaps struct {
+	SubscriberNAT *ebpf.Map // subscriber_nat
+	NATSessions   *ebpf.Map // nat_sessions
+	NATReverse    *ebpf.Map // nat_reverse
+	NATPool       *ebpf.Map // nat_pool
+	NATStats      *ebpf.Map // nat_stats_map
+	NATConfig     *ebpf.Map // nat_config_map
+	EIMTable      *ebpf.Map // eim_table
+	HairpinIPs    *ebpf.Map // hairpin_ips
+	ALGPorts      *ebpf.Map // alg_ports
+	NATLogRB      *ebpf.Map // nat_log_rb
+}
+
+// VerifInjectMaps installs the eBPF map handles that Start() would take from the loaded
+// collection, so that the verification harness can let the unmodified manager write into real
+// kernel maps without attaching the TC programs to an interface. Injection point only: no
+// behaviour (in particular the configuration and ALG writes of Start() are not repeated here).
+func (m *Manager) VerifInjectMaps(v VerifNATMaps) {
+	m.subscriberNAT = v.SubscriberNAT
+	m.natSessions = v.NATSessions
+	m.natReverse = v.NATReverse
+	m.natPool = v.NATPool
+	m.natStats = v.NATStats
+	m.natConfigMap = v.NATConfig
+	m.eimTable = v.EIMTable
+	m.hairpinIPs = v.HairpinIPs
+	m.algPorts = v.ALGPorts
+	m.natLogRB = v.NATLogRB
+}
